@@ -6,6 +6,8 @@ pub(crate) mod verif_entry_common {
 
     /// Hot-reloadable wrapper (`HOT_RELOADED = true` through the `Compound` blanket impl).
     pub struct Dy<T>(pub T);
+    impl<T: Clone> Clone for Dy<T> { fn clone(&self) -> Self { Dy(self.0.clone()) } }
+    impl<T: Copy> Copy for Dy<T> {}
     impl<T: Send + Sync + 'static> Compound for Dy<T> {
         fn load(_: AnyCache, _: &SharedString) -> Result<Self, BoxedError> { Err("never loaded".into()) }
     }
